@@ -390,6 +390,44 @@ class C18(Prop):
                 return f"descriptions {[C.unhex(g) for g in got_ph]} are not the looked-up phrases {[C.unhex(g) for g in sorted(case.expect)]}"
         return None
 
+    ISO_PHRASES = ["population finland", "population sweden", "mass earth", "mass sun", "radius moon", "population world",
+                   "distance sun", "mass moon", "radius earth", "population norway",
+                   # spellings that differ only in letter case, and words that tantivy's query
+                   # parser treats as operators when capitalised: different phrases, possibly
+                   # different facts, which no shared state may confuse
+                   "mass not earth", "mass NOT earth", "Mass Earth", "MASS EARTH", "mass Earth", "population or finland",
+                   "population OR finland", "mass and sun", "mass AND sun", "Population Finland", "POPULATION FINLAND",
+                   "radius not moon", "radius NOT moon", "mass NOT sun", "mass not sun", "pop", "Pop", "POP", "a", "A"]
+
+    def scenarios(self, rng, tier):
+        """Isolation: each phrase must get, on a database instance that has already answered
+        other phrases (in several different orders), the answer it gets from a fresh
+        instance."""
+        P = list(self.ISO_PHRASES)
+        orders = [P, list(reversed(P))]
+        for _ in range(2 if tier == "quick" else 8):
+            q = list(P)
+            for i in range(len(q) - 1, 0, -1):
+                j = rng.below(i + 1)
+                q[i], q[j] = q[j], q[i]
+            orders.append(q + q[: len(q) // 2])
+        fresh = {}
+        for p in P:   # one fresh process (hence database instance) per phrase
+            rc, res, err = C.run_lines(C.harness_bin(False), ["lookup " + C.hexs(p)], watchdog=30)
+            fresh[p] = res[0] if res else "?"
+        fails, n = [], 0
+        for oi, order in enumerate(orders):
+            rc, res, err = C.run_lines(C.harness_bin(False), ["lookup " + C.hexs(p) for p in order], watchdog=30)
+            for k, (p, r) in enumerate(zip(order, res)):
+                n += 1
+                if r != fresh[p]:
+                    fails.append((f"isolation:{p}", " ; ".join(order[:k + 1]),
+                                  f"lookup of {p!r} answered {r[:80]} after {k} other lookups on the same instance, but {fresh[p][:80]} on a fresh one"))
+        distinct = len(set(fresh.values()))
+        return {"evaluations": n + len(P), "nontrivial": sum(1 for v in fresh.values() if v.startswith("L OK")),
+                "spec_fail": fails[:20], "dist": {"isolation-lookups": n, "fresh-instance-lookups": len(P), "distinct-answers": distinct},
+                "samples": [{"input": "lookup " + p, "implementation": fresh[p][:100]} for p in P[10:14]]}
+
     def cases(self, rng, tier):
         phrases = ["population finland", "population sweden", "mass earth", "mass sun", "radius moon", "population world",
                    "distance sun", "mass moon", "radius earth", "population norway"]
